@@ -21,6 +21,11 @@ def run(ctx):
     ss += S.generate(ctx, 6 if ctx.quick else 40, 4, max_e=7, max_loops=3, routings_per_graph=1, kinds=("uniform", "corner"),
                      names=["sunrise", "banana4", "double_triangle", "kite", "bubble_chain", "triangle_tadpole", "sunrise_tadpole", "bubble_chain3"],
                      mass_mode="some")
+    # graphs with subgraphs of >=3 components (a bubble and two separated edges ...): many sectors per graph
+    ss += S.generate(ctx, 3 if ctx.quick else 12, 150 if ctx.quick else 400, max_e=7, max_loops=3, routings_per_graph=1, kinds=("uniform",),
+                     names=["hexagon_doubled"])
+    ss += S.generate(ctx, 2 if ctx.quick else 8, 100 if ctx.quick else 300, max_e=7, max_loops=3, routings_per_graph=1, kinds=("uniform",),
+                     names=["bubble_chain3"])
     rng = ctx.rng
     # rare sectors: push edge-choice coordinates to the ends of [0,1)
     for s in list(ss[:: 3]):
@@ -54,6 +59,9 @@ def run(ctx):
             ctx.count("degenerate_exact_skipped"); continue
         if ex["kappa"] > 10 ** 8:
             ctx.count("kappa>1e8_skipped"); continue
+        if SC.tol_cond(nl, ex["cond"], ex["kappa"]) > Fraction(1, 100):
+            # parameters so spread that det L / V are not resolvable in binary64 (cond(L) kappa_V > ~1e10): f64 cancellation dominates
+            ctx.count("cancellation_dominates(cond*kappa)_skipped"); continue
         sy = kin.symanzik(c["edges"], x, r["ext_mom"], r["masses"], D)
         gen_mom = {vtx: [Fraction(1000003 * (i + 1) + 17 * i * i)] for i, vtx in enumerate(sorted(r["ext_mom"]))}
         if gen_mom:
